@@ -342,18 +342,18 @@ package activitypub
 //@ ensures (=> (= (len items) 0) (and (= (len result) (len col)) (forall (k) (=> (and (<= 0 k) (< k (len col))) (= (at result k) (at col k))))))
 //@ ensures (=> (> (len items) 0) (forall (k) (=> (and (<= 0 k) (< k (len result)))
 //@            (and (exists (m) (and (<= 0 m) (< m (len col)) (= (at result k) (at col m))))
-//@                 (forall (j) (=> (and (<= 0 j) (< j (len items))) (not (iriEq (idOf (at result k)) (idOf (at items j)) false))))))))
+//@                 (forall (j) (=> (and (<= 0 j) (< j (len items))) (or (isNilItem (at result k)) (isNilItem (at items j)) (not (iriEq (idOf (at result k)) (idOf (at items j)) false)))))))))
 //@ ensures (<= (len result) (len col))
 //@ loop 0
 //@   invariant (and (<= -1 rangeindex) (< rangeindex (len col)) (> (len items) 0))
 //@   invariant (<= (len result) (+ rangeindex 1))
 //@   invariant (forall (k) (=> (and (<= 0 k) (< k (len result)))
 //@               (and (exists (m) (and (<= 0 m) (<= m rangeindex) (= (at result k) (at col m))))
-//@                    (forall (j) (=> (and (<= 0 j) (< j (len items))) (not (iriEq (idOf (at result k)) (idOf (at items j)) false)))))))
+//@                    (forall (j) (=> (and (<= 0 j) (< j (len items))) (or (isNilItem (at result k)) (isNilItem (at items j)) (not (iriEq (idOf (at result k)) (idOf (at items j)) false))))))))
 //@ loop 1
 //@   invariant (and (<= -1 rangeindex) (< rangeindex (len items)) (<= -1 rangeindex^) (< (+ rangeindex^ 1) (len col)) (> (len items) 0))
 //@   invariant (<= (len result^) (+ rangeindex^ 1))
-//@   invariant (forall (j) (=> (and (<= 0 j) (<= j rangeindex)) (not (iriEq (idOf (at col (+ rangeindex^ 1))) (idOf (at items j)) false))))
+//@   invariant (forall (j) (=> (and (<= 0 j) (<= j rangeindex)) (or (isNilItem (at col (+ rangeindex^ 1))) (isNilItem (at items j)) (not (iriEq (idOf (at col (+ rangeindex^ 1))) (idOf (at items j)) false)))))
 //@   invariant (forall (k) (=> (and (<= 0 k) (< k (len result^)))
 //@               (and (exists (m) (and (<= 0 m) (<= m rangeindex^) (= (at result^ k) (at col m))))
-//@                    (forall (j) (=> (and (<= 0 j) (< j (len items))) (not (iriEq (idOf (at result^ k)) (idOf (at items j)) false)))))))
+//@                    (forall (j) (=> (and (<= 0 j) (< j (len items))) (or (isNilItem (at result^ k)) (isNilItem (at items j)) (not (iriEq (idOf (at result^ k)) (idOf (at items j)) false))))))))
